@@ -17,26 +17,64 @@ static inline void *mk_block(size_t n) {
   return p;
 }
 
+/* typed allocation: CBMC recognises malloc(n * sizeof(T)) and models the block as T[n] (element-wise
+ * accesses) instead of a byte array of symbolic size - an order of magnitude smaller formulas */
+#define MK_TYPED_BLOCK(dst, T, n)                   \
+  do {                                              \
+    T *verif_p = malloc((n) * sizeof(T));           \
+    __CPROVER_assume(verif_p != NULL);              \
+    (dst) = (void *)verif_p;                        \
+  } while (0)
+
 static inline cbor_item_t *mk_hdr(size_t tail) {
   cbor_item_t *it = mk_block(sizeof(cbor_item_t) + tail);
   __CPROVER_assume(it->refcount >= 1 && it->refcount < SIZE_MAX / 2);
   return it;
 }
 
+/* Integers / floats use a combined allocation: node + payload.  Three modes:
+ *  - default: symbolic width, block of exactly sizeof(node) + payload bytes (a one-byte payload overrun is an
+ *    out-of-bounds access) - used where payload accesses are the point of the proof;
+ *  - -DVERIF_INT_WIDTH=k / -DVERIF_FLOAT_WIDTH=k: that width only, exact block of constant size;
+ *  - -DVERIF_FIXED_NODES: symbolic width in a block of constant (maximal) size - used by proofs that dispatch
+ *    on node->type and never touch the payload (CBMC propagates the type constant only through objects of
+ *    constant size; with a symbolic size every switch arm is explored: 66k steps instead of 2k, probed). */
 static inline cbor_item_t *mk_int(void) {
+#if defined(VERIF_INT_WIDTH)
+  unsigned w = VERIF_INT_WIDTH;
+  cbor_item_t *it = mk_hdr((size_t)1 << VERIF_INT_WIDTH);
+#elif defined(VERIF_FIXED_NODES)
+  unsigned w = nondet_uint();
+  __CPROVER_assume(w <= 3);
+  cbor_item_t *it = mk_hdr(8);
+#else
   unsigned w = nondet_uint();
   __CPROVER_assume(w <= 3);
   cbor_item_t *it = mk_hdr((size_t)1 << w);
+#endif
+#if defined(VERIF_INT_TYPE)
+  it->type = VERIF_INT_TYPE;
+#else
   it->type = nondet_bool() ? CBOR_TYPE_UINT : CBOR_TYPE_NEGINT;
+#endif
   it->metadata.int_metadata.width = (cbor_int_width)w;
   it->data = (unsigned char *)it + sizeof(cbor_item_t);
   return it;
 }
 
 static inline cbor_item_t *mk_float_ctrl(void) {
+#if defined(VERIF_FLOAT_WIDTH)
+  unsigned w = VERIF_FLOAT_WIDTH;
+  cbor_item_t *it = mk_hdr(VERIF_FLOAT_WIDTH == 0 ? 0 : VERIF_FLOAT_WIDTH == 3 ? 8 : 4);
+#elif defined(VERIF_FIXED_NODES)
+  unsigned w = nondet_uint();
+  __CPROVER_assume(w <= 3);
+  cbor_item_t *it = mk_hdr(8);
+#else
   unsigned w = nondet_uint();
   __CPROVER_assume(w <= 3);
   cbor_item_t *it = mk_hdr(w == 0 ? 0 : w == 3 ? 8 : 4);
+#endif
   it->type = CBOR_TYPE_FLOAT_CTRL;
   it->metadata.float_ctrl_metadata.width = (cbor_float_width)w;
   it->data = w == 0 ? nondet_ptr() : (unsigned char *)it + sizeof(cbor_item_t);
@@ -68,7 +106,7 @@ static inline cbor_item_t *mk_def_string(void) {
 static inline void mk_chunked_data(cbor_item_t *it) {
   struct cbor_indefinite_string_data *d = mk_block(sizeof(*d));
   __CPROVER_assume(d->chunk_count <= d->chunk_capacity && d->chunk_capacity <= VERIF_MAXCNT);
-  d->chunks = d->chunk_capacity == 0 ? NULL : mk_block(d->chunk_capacity * sizeof(cbor_item_t *));
+  if (d->chunk_capacity == 0) d->chunks = NULL; else MK_TYPED_BLOCK(d->chunks, cbor_item_t *, d->chunk_capacity);
   it->data = (unsigned char *)d;
 }
 
@@ -103,7 +141,7 @@ static inline cbor_item_t *mk_array(void) {
   if (a == 0 && it->metadata.array_metadata.type == _CBOR_METADATA_INDEFINITE)
     it->data = NULL;
   else
-    it->data = mk_block(a * sizeof(cbor_item_t *));
+    MK_TYPED_BLOCK(it->data, cbor_item_t *, a);
   return it;
 }
 
@@ -118,14 +156,14 @@ static inline cbor_item_t *mk_map(void) {
   if (a == 0 && it->metadata.map_metadata.type == _CBOR_METADATA_INDEFINITE)
     it->data = NULL;
   else
-    it->data = mk_block(a * sizeof(struct cbor_pair));
+    MK_TYPED_BLOCK(it->data, struct cbor_pair, a);
   return it;
 }
 
 static inline cbor_item_t *mk_tag(void) {
   cbor_item_t *it = mk_hdr(0);
   it->type = CBOR_TYPE_TAG;
-  it->data = nondet_ptr();
+  it->data = NULL;
   return it;
 }
 
@@ -143,6 +181,19 @@ static inline cbor_item_t *mk_any(void) {
     case 6: return mk_tag();
     default: return mk_int();
   }
+}
+
+/* an element as seen by a container operation: only the node header matters (type, reference count,
+ * releasability of its data block); any major type, not chunked */
+static inline cbor_item_t *mk_elem(void) {
+  cbor_item_t *it = mk_hdr(0);
+  unsigned t = nondet_uint();
+  __CPROVER_assume(t < 8);
+  it->type = (cbor_type)t;
+  it->metadata.bytestring_metadata.type = _CBOR_METADATA_DEFINITE;
+  it->metadata.string_metadata.type = _CBOR_METADATA_DEFINITE;
+  it->data = (t == CBOR_TYPE_TAG || nondet_bool()) ? NULL : mk_block(8);
+  return it;
 }
 
 /* a leaf usable as a child / pushee: any node kind, header only is touched by the operations under proof */
